@@ -20,7 +20,8 @@ Local Open Scope Z_scope.
 Definition dump := list (key * value * option Z).
 Inductive item :=
 | IOp (o : op) (re rr : result)
-| ISnap (ops : list op) (res : list (result * result)) (de dr : dump).
+| ISnap (ops : list op) (res : list (result * result)) (de dr : dump)
+| IKeys (raw_e raw_r : list string).   (* the raw key strings of both backing stores, sorted bytewise *)
 Definition case := list item.
 (* abbreviations used by the harness when both backends gave the same observation *)
 Definition IOpS (o : op) (r : result) : item := IOp o r r.
@@ -53,15 +54,33 @@ Fixpoint agree_e (s : estate) (l : case) : bool :=
       Nat.eqb (List.length os) (List.length rs)
       && forallb (fun p => result_eqb (snd (estep s (fst p))) (fst (snd p))) (combine os rs)
       && dump_eqb (e_dump s) de && agree_e s t
+  | IKeys raw _ :: t =>
+      (* validates [render] and the scan order against the real key strings *)
+      list_eqb String.eqb (map (fun kv => render (fst kv)) (isort (e_kv s))) raw && agree_e s t
+  end.
+(* Redis ListWorkloads collects the scanned records in a Go map and keys the
+   status lookup by workload ID: when two listed records share an ID (possible
+   only after a non-atomic Redis create) the status attached to them depends on
+   Go's map order.  Such observations are compared on the records only. *)
+Fixpoint ids_nodup (l : list name) : bool :=
+  match l with [] => true | x :: t => negb (existsb (name_eqb x) t) && ids_nodup t end.
+Definition result_eqb_r (model obs : result) : bool :=
+  match model, obs with
+  | ROk (PWls l1), ROk (PWls l2) =>
+      if ids_nodup (map (fun v => w_id (wv_d v)) l2) then result_eqb model obs
+      else perm_eqb wdata_eqb (map wv_d l1) (map wv_d l2)
+  | _, _ => result_eqb model obs
   end.
 Fixpoint agree_r (s : rstate) (l : case) : bool :=
   match l with
   | [] => true
-  | IOp o _ rr :: t => let '(s', r) := rstep s o in result_eqb r rr && agree_r s' t
+  | IOp o _ rr :: t => let '(s', r) := rstep s o in result_eqb_r r rr && agree_r s' t
   | ISnap os rs _ dr :: t =>
       Nat.eqb (List.length os) (List.length rs)
-      && forallb (fun p => result_eqb (snd (rstep s (fst p))) (snd (snd p))) (combine os rs)
+      && forallb (fun p => result_eqb_r (snd (rstep s (fst p))) (snd (snd p))) (combine os rs)
       && dump_eqb (r_dump s) dr && agree_r s t
+  | IKeys _ raw :: t =>
+      list_eqb String.eqb (map (fun kv => render (fst kv)) (isort (r_kv s))) raw && agree_r s t
   end.
 Definition agree (c : case) : bool := agree_e e_init c && agree_r r_init c.
 
@@ -74,6 +93,7 @@ Definition item_sim (i : item) : bool :=
   match i with
   | IOp _ re rr => result_sim re rr
   | ISnap _ rs _ _ => forallb (fun p => result_sim (fst p) (snd p)) rs
+  | IKeys _ _ => true
   end.
 Fixpoint probes_same (sel : result * result -> result) (p1 p2 : list (result * result)) : bool :=
   match p1, p2 with
